@@ -16,8 +16,11 @@ CFG = {
                   "observations U1/U2 in notes/C12.md). The default verdict on the implementation is the LETTER of C12: the base clauses "
                   "on EVERY datagram whether the layer took it or not (from server addresses owned by a connection too), plus the "
                   "clauses about the layer doing its job (uni_answer); uni_consume / uni_both hits are observation statistics "
-                  "(component_stats obs.*) and verdicts only with VERIF_UDPMUXUNI_STRICT=1.",
-    "level_note": "Ties: C (sequential differential correspondence incl. the close-vs-datagram window op `closein`) every run; A (concurrent acceptance recorder + in-package inspection of the routing tables at quiescence) in the thorough tier. Trusted: Lean kernel (axioms propext/Classical.choice/Quot.sound); the correspondence harness and driver; "
+                  "(component_stats obs.*) and verdicts only with VERIF_UDPMUXUNI_STRICT=1. Concurrent executions of the universal layer "
+                  "(GetXORMappedAddr calls racing the tap, expiry, other calls, RemoveConnByUfrag and Close) are recorded from the real code "
+                  "under a virtual clock and must pass the spec monitor IceSpec.C12UniConc and be a linearisation of the UniMux model "
+                  "(bounded search; exhaustion is INCONCLUSIVE); four one-step theorems state the facts this recorder relies on.",
+    "level_note": "Ties: C (sequential differential correspondence incl. the close-vs-datagram window op `closein`) every run; A (concurrent acceptance recorder + in-package inspection of the routing tables at quiescence) in the thorough tier; A for the universal layer (`udpmuxuniconc`) with a small budget every run and 1500 sessions in the thorough tier. Trusted: Lean kernel (axioms propext/Classical.choice/Quot.sound); the correspondence harness and driver; "
                   "pion/stun decoding (IsMessage/Decode/USERNAME) and net/netip canonicalisation are mirrored by small Lean functions "
                   "(Kind, canonAddr) validated only by the correspondence; the concurrent interleavings of the real goroutines are "
                   "covered by the acceptance recorder (thorough tier), not by the theorems (sequential semantics, watcher explicit).",
@@ -31,12 +34,17 @@ CFG = {
         # whole, so it is not shrunk (every line carries its own data; a replay re-runs only the Lean acceptance check).
         {"component": "udpmuxconc", "allow_empty_quick": True, "session_start": "new", "trivial_regex": r"^(skip|error|bad-op.*)$",
          "timeout_quick": 60, "timeout_thorough": 900, "shrink_s": 0},
+        # tie A for the UNIVERSAL layer: real UniversalUDPMuxDefault in a synctest bubble (virtual clock), waiter / feeder /
+        # connection / Close goroutines; the Lean side runs the spec monitor (IceSpec.C12UniConc) and a linearisation search
+        # over the UniMux model (budget exhausted => INCONCLUSIVE).  Small budget in quick (about 1 s), 1500 sessions in thorough.
+        {"component": "udpmuxuniconc", "require_stats": {"uniconc.x.ok": 20, "uniconc.x.timeout": 10}, "session_start": "new",
+         "trivial_regex": r"^(skip|error|bad-op.*)$", "timeout_quick": 60, "timeout_thorough": 900, "shrink_s": 0},
     ],
     "rule": "quick: 3000 sessions (8..40 ops), thorough: 40000 sessions (8..200 ops) + 400 concurrent recorder sessions (2..5 actor goroutines x 20..60 calls, 30..90 datagrams, GOMAXPROCS in {1,2,4,16}); each session = one real UDPMuxDefault on an "
             "unspecified fake socket or a MultiUDPMuxDefault over three, AddrPort and net.Addr I/O paths, 1..4 ufrags, 2..6 remote "
             "addresses drawn from aliasing groups (v4 / v4-mapped / zoned / link-local), STUN with USERNAME (0, 1, several colons), "
             "without USERNAME, undecodable STUN-looking, non-STUN; biased towards remove / write-after-remove / re-register / close "
-            "patterns. udpmuxuni: quick 900 / thorough 12000 sessions (8..40 / 8..160 ops) on a real UniversalUDPMuxDefault (cache TTL 1 s, 3 s or the default 25 s): "
+            "patterns. udpmuxuniconc: quick 150 / thorough 1500 sessions, each 2..4 waiter goroutines x 2..5 GetXORMappedAddr calls (deadlines 5..75 ms, odd), 4..15 datagrams, 0..2 connection goroutines, Close in 1/3 of the sessions, TTL 20/40/100 ms/default, GOMAXPROCS in {1,2,4,16}. udpmuxuni: quick 900 / thorough 12000 sessions (8..40 / 8..160 ops) on a real UniversalUDPMuxDefault (cache TTL 1 s, 3 s or the default 25 s): "
             "GetXORMappedAddr calls (deadlines 0..5 s) started in goroutines, virtual time steps around the deadline and TTL boundaries, datagrams from server "
             "and peer addresses sharing one pool (Binding success with / without / with malformed XOR-MAPPED-ADDRESS, own or foreign transaction id; error "
             "response, indication, request with and without USERNAME carrying the attribute; the udpmux kinds), GetConnForURL, GetConn, writes, reads, "
@@ -49,5 +57,6 @@ CFG = {
     "assumptions": ["sequential semantics: one public call or one goroutine step at a time; the close watcher is the explicit op watcherRun",
                     "packets never exceed receiveMTU (the ErrShortBuffer branches are not modelled)",
                     "universal mux: a GetXORMappedAddr call is one atomic step up to its return or its select (synctest quiescence after every operation); "
-                    "context cancellation of GetXORMappedAddrContext and concurrent interleavings inside the universal layer are not driven"],
+                    "context cancellation of GetXORMappedAddrContext is not driven; concurrent interleavings inside the universal layer are covered by the recorder udpmuxuniconc "
+                    "(whose acceptance search splits the model's atomic xorStart into the code's critical sections, notes/C12.md R1/R2), not by the theorems"],
 }
